@@ -235,7 +235,7 @@ class Builder:
                 access_specifier=AccessSpecifier.PRIVATE,
                 contents=TextBlock(private_section))
         ])
-        cpp.namespace.contents = TB(str(cpp.struct))
+        namespaced_struct = self._namespaced(TB(str(cpp.struct)))
 
         footer = Comment(f'Generated by: dznpy/adv_shell v{VERSION}')
 
@@ -243,7 +243,7 @@ class Builder:
         guard_name = '_'.join(cpp.namespace.ns_ids.items + [filename])
         return GeneratedContent(filename=filename,
                                 contents=include_guarded(guard_name, str(
-                                    TextBlock([header, cpp.namespace, footer]))))
+                                    TextBlock([header, namespaced_struct, footer]))))
 
     def _create_sourcefile(self) -> GeneratedContent:
         """Generate a c++ sourcefile according to the current recipe."""
@@ -266,21 +266,31 @@ class Builder:
                   BLANK_LINE]
 
         # fill the struct declaration with the public and private sections
-        cpp.namespace.contents = TB([BLANK_LINE,
-                                     chunk(cpp.facilities_check_fn.as_def),
-                                     chunk(cpp.constructor.as_def),
-                                     chunk(cpp.final_construct_fn.as_def),
-                                     chunk(cpp.facilities.accessors_def),
-                                     chunk(cpp.provides_ports.accessors_def),
-                                     chunk(cpp.provides_port_helpers.public_def),
-                                     chunk(cpp.requires_ports.accessors_def),
-                                     chunk(cpp.provides_port_helpers.private_def),
-                                     ])
+        namespaced_defs = self._namespaced(TB([BLANK_LINE,
+                                               chunk(cpp.facilities_check_fn.as_def),
+                                               chunk(cpp.constructor.as_def),
+                                               chunk(cpp.final_construct_fn.as_def),
+                                               chunk(cpp.facilities.accessors_def),
+                                               chunk(cpp.provides_ports.accessors_def),
+                                               chunk(cpp.provides_port_helpers.public_def),
+                                               chunk(cpp.requires_ports.accessors_def),
+                                               chunk(cpp.provides_port_helpers.private_def),
+                                               ]))
 
         footer = Comment(f'Generated by: dznpy/adv_shell v{VERSION}')
 
         return GeneratedContent(filename=f'{cpp.target_file_basename}.cc',
-                                contents=str(TextBlock([header, cpp.namespace, footer])))
+                                contents=str(TextBlock([header, namespaced_defs, footer])))
+
+    def _namespaced(self, contents: TextBlock) -> TextBlock:
+        """Enclose the contents with the C++ namespace of the encapsulee. An encapsulee that resides
+        in the global namespace gets no enclosure at all, because a nameless 'namespace {' is an
+        anonymous namespace whose members can not be used from another translation unit."""
+        namespace = self._recipe.cpp_elements.namespace
+        if not namespace.ns_ids.items:
+            return contents
+        namespace.contents = contents
+        return TextBlock(namespace)
 
     def _create_creator_info_overview(self) -> Optional[str]:
         """Create the creator information overview"""
